@@ -9,7 +9,7 @@ DECL_INPUT(win_in);
 DECL_INPUT(seq_in);
 #define W_SETUP INPUT(win_in, I); ASSUME(I.inlen <= ((size_t)1 << 24)); MKBUF(buf, I.buf, I.inlen); const uint8_t *in = buf; size_t inlen = I.inlen
 
-//@job name=tls_uint_from_bytes props=C06 enforce=tls_uint8_from_bytes,tls_uint16_from_bytes,tls_uint24_from_bytes,tls_uint32_from_bytes
+//@job name=tls_uint_from_bytes props=C06,C20 enforce=tls_uint8_from_bytes,tls_uint16_from_bytes,tls_uint24_from_bytes,tls_uint32_from_bytes
 void h_tls_uint_from_bytes(void)
 {
 	W_SETUP; uint8_t a8; uint16_t a16; uint24_t a24; uint32_t a32;
@@ -58,7 +58,7 @@ void h_tls_uint24array_from_bytes(void)
 	CANARY("returned");
 }
 
-//@job name=tls_seq_num_incr props=C11 enforce=tls_seq_num_incr unwindset=tls_seq_num_incr.*:9
+//@job name=tls_seq_num_incr props=C11,C20 enforce=tls_seq_num_incr unwindset=tls_seq_num_incr.*:9
 void h_tls_seq_num_incr(void)
 {
 	INPUT(seq_in, S); uint8_t seq[8]; memcpy(seq, S.s, 8);
